@@ -119,11 +119,14 @@ def c01() -> int:
         counters = {run["scenario"]: run["counters"] or {} for run in b0["runs"]}
         # repetition inside ONE interpreter: every generated scenario twice in a row, and once more after the others --
         # all three must equal the run in a fresh process (state that survives in module-level objects between runs)
-        rep = run_worker(base, small + list(reversed(small)) + small[:1], outdir, False)
+        # (the primer scenario S0g comes first: same station ids as the others, gas pumps only)
+        rep = run_worker(base, ["S0g"] + small + list(reversed(small)) + small[:1], outdir, False)
         if "error" in rep:
             raise RuntimeError("ORD worker failed: " + rep["error"])
         repetitions = 0
         for k, run in enumerate(rep["runs"]):
+            if run["scenario"] == "S0g":
+                continue
             repetitions += 1
             dv = first_divergence(baseline[run["scenario"]], run)
             if dv is not None:
@@ -132,7 +135,7 @@ def c01() -> int:
                         "C01",
                         ("repetition_in_process", dv[1]),
                         f"scenario {run['scenario']} run as #{k+1} of a sequence of runs inside one interpreter differs from its run in a fresh process at step {dv[0]} ({dv[1]}): something survives between runs",
-                        {"engine": "ord", "scenario": run["scenario"], "seeds": [base, base], "step": dv[0], "repetition": small + list(reversed(small)) + small[:1]},
+                        {"engine": "ord", "scenario": run["scenario"], "seeds": [base, base], "step": dv[0], "repetition": ["S0g"] + small + list(reversed(small)) + small[:1]},
                     )
                 )
                 break
